@@ -19,6 +19,10 @@ type replayCfg struct {
 	Config Config `json:"config"`
 	Seed   string `json:"seed_state"`
 	Ops    []Op   `json:"ops"`
+	// Cell is the signature of the failing cube cell; a replay evaluates the whole cube in the final state
+	// (the cells are not independent of the order they share a branch in) but reports only this cell.
+	Cell      string `json:"cell,omitempty"`
+	Assertion string `json:"assertion,omitempty"`
 }
 
 var (
@@ -70,6 +74,10 @@ func main() {
 		ctx, _ := w.Ctx.CacheContext()
 		l := w.Base.Clone()
 		fail := func(a, s, d string) {
+			if rp.Cell != "" && (s != rp.Cell || a != rp.Assertion) {
+				fmt.Printf("   (other cell also failing: %s %s)\n", a, s)
+				return
+			}
 			r.AddViolation(core.Violation{Property: f.Prop, Assertion: a, Signature: s, Detail: d, Replay: rp})
 		}
 		for i, op := range rp.Ops {
@@ -105,9 +113,20 @@ func main() {
 	}
 	sc := &core.Scenario[Op, *Ledger]{
 		App: w.App, Stores: nil, Config: cfg,
-		Enabled:   w.Enabled(al),
-		Apply:     w.Apply,
-		Check:     func(ctx sdk.Context, l *Ledger, fail func(a, s, d string)) { cube.Check(ctx, l, fail) },
+		Enabled: w.Enabled(al),
+		Apply:   w.Apply,
+		Check: func(ctx sdk.Context, l *Ledger, fail func(a, s, d string)) {
+			cube.Check(ctx, l, func(a, s, d string) {
+				n := len(r.Violations)
+				fail(a, s, d)
+				if len(r.Violations) == n+1 {
+					// name the failing cell in the replay artefact
+					if tr, ok := r.Violations[n].Replay.(core.Trace[Op]); ok {
+						r.Violations[n].Replay = replayCfg{Config: cfg, Seed: tr.Seed, Ops: tr.Ops, Cell: s, Assertion: a}
+					}
+				}
+			})
+		},
 		LedgerKey: ledgerKey,
 	}
 	ex := core.NewExplorer(sc, f, r)
